@@ -5,6 +5,7 @@
   Own module: the bridge imports `Props/C02.lean`.
 -/
 import Gobptree.Proofs.CBridge
+import Gobptree.Proofs.CNoLock
 
 namespace Gobptree.Conc
 open Gobptree
@@ -27,7 +28,27 @@ theorem C08_shape_after_concurrent (lt : K → K → Bool) (P : Params K) (tree 
     TreeInv lt c.tree ∧ IdsInv c.tree ∧ c.tree.order = P.order :=
   treeInv_after_concurrent lt P tree progs hkp ht hord hsep ho hp hd hdel c hr hq
 
+/-- **C08 (quiescent instant = no mutex held).** An operation in flight always holds a mutex
+    (`idle_of_held_nil`: a thread holding nothing has not started, has finished, waits for
+    rootMutex at the very beginning of an operation, or pauses without a cursor).  So in EVERY
+    reachable configuration in which no thread holds a mutex — in the middle of a concurrent run,
+    not only at its end — the tree satisfies the full shape invariant, in both formulations.
+    This is the criterion the implementation-side shape oracle uses inside concurrent runs. -/
+theorem C08_shape_when_no_lock_held (lt : K → K → Bool) (P : Params K) (tree : Tree K V) (progs : List (List (COp K V)))
+    (hkp : KParams lt P) (ht : TreeOk none tree) (hord : OrdTree lt tree) (hsep : SepTree lt tree)
+    (ho : tree.order = P.order) (hp : PadOk P) (hd : Disciplined progs) (hdel : 4 ≤ tree.order ∨ NoDelete progs)
+    (c : Config K V) (hr : Reachable (Config.init P tree progs) c) (hq : NoLockHeld c) :
+    (TreeOk none c.tree ∧ OrdTree lt c.tree ∧ SepTree lt c.tree ∧ c.tree.order = P.order) ∧
+    (TreeInv lt c.tree ∧ IdsInv c.tree) :=
+  ⟨reachable_nolock_tree_ok lt P tree progs hkp ht hord hsep ho hp hd hdel c hr hq,
+   let r := reachable_nolock_treeInv lt P tree progs hkp ht hord hsep ho hp hd hdel c hr hq
+   ⟨r.1, r.2.1⟩⟩
+
+/-- `AtRest` alone does not give `NoLockHeld`: a thread may end with its cursor open -/
+example := @atRest_not_noLockHeld
+
 end Gobptree.Conc
 
 #print axioms Gobptree.Conc.C08_concurrent_invariant_gives_sequential
 #print axioms Gobptree.Conc.C08_shape_after_concurrent
+#print axioms Gobptree.Conc.C08_shape_when_no_lock_held
